@@ -165,7 +165,7 @@ SINK_NOTE = ("String used as a write-only output buffer is replaced by the sink 
              "str::repeat(1-byte pattern) append to a fixed array that the oracle reads; contract: bytes appended, in order")
 PROPS["C16"] = {
     "rewrite_groups": [],
-    "models_for": ["printer"],
+    "models_for": ["printer", "sourcemap-writer"],
     "assumptions": [
         SINK_NOTE,
         "str::find::<char> is stubbed by a plain scan with the same contract (kv/harness/printer/strlex.rs str_find_char); the crate is compiled with -Zcrate-attr=feature(pattern) so that the stub can name the Pattern bound",
